@@ -295,6 +295,19 @@ def check_feature(res, N, exons, strand, a, b, cs="+"):
         res.deviation("chunk_relative_location", dict(op="chunk_relative_location", **case), o[1], inside, sig="chunk-location")
     elif inside:
         cmp(res, "get_spliced_sequence", case, lib.outcome(lambda: str(F1.get_spliced_sequence())), F.splice(genome, inside, strand), "chunk-spliced-seq")
+        # the fourth route to a chunk view: an interval built FROM its chunk-relative location (on either strand of the chunk) is
+        # the part of the chromosome interval inside the chunk: same blocks, same CHROMOSOME strand, same bases
+        from inscripta.biocantor.gene.feature import FeatureInterval as _FI
+
+        o4 = lib.outcome(lambda: _FI.from_chunk_relative_location(F1.chunk_relative_location, sequence_name="chrV", feature_name="f"))
+        res.trans()
+        exp4 = ([list(r) for r in M.runs(M.S(tuple((p_, p_ + 1) for p_ in inside)))], strand)
+        if o4[0] != "ok":
+            res.deviation("from_chunk_relative_location", dict(op="from_chunk_relative_location", **case), o4[1], exp4, sig="from-chunk-location-raises")
+        else:
+            got4 = ([[x.start, x.end] for x in o4[1].blocks], lib.SYM[o4[1].strand])
+            if got4 != (exp4[0], exp4[1]):
+                res.deviation("from_chunk_relative_location", dict(op="from_chunk_relative_location", **case), list(got4), list(exp4), sig="from-chunk-location-differs")
 
 
 def check_collections(res, N, exons, strand, a, b):
